@@ -1109,7 +1109,7 @@ XML_IMPORTS = "From YQ Require Import Base.Str Model.Xml."
 
 def coq_prefs(ap, cn, keep_ns=True, skip_proc=False, skip_dir=False):
     b = lambda x: "true" if x else "false"
-    return "(mkXprefs %s %s %s %s %s %s %s)" % (vlib.coq_str(ap), vlib.coq_str(cn), vlib.coq_str("+p_"), vlib.coq_str("+directive"), b(keep_ns), b(skip_proc), b(skip_dir))
+    return "(mkXprefs %s %s %s %s %s true %s %s)" % (vlib.coq_str(ap), vlib.coq_str(cn), vlib.coq_str("+p_"), vlib.coq_str("+directive"), b(keep_ns), b(skip_proc), b(skip_dir))
 
 
 def tok_fields(t):
